@@ -32,6 +32,10 @@ pub struct DigestGroup {
 
 pub fn group_digests(mut digests: Vec<Digest>) -> Vec<DigestGroup> {
     let mut groups = Vec::new();
+    // nothing to group, e.g. a pre-filter FASTA chunk none of whose proteins yields a peptide
+    if digests.is_empty() {
+        return groups;
+    }
     digests.sort_unstable_by(|a, b| {
         a.position
             .cmp(&b.position)
